@@ -1,10 +1,10 @@
 (* rewriting.py: snake_removal (follow_wire, find_snake, unsnake, the outer loop,
    then monoidal normalize) and rigid.Diagram.normalize / normal_form.
-   Definitions only; proofs live in Snake/SnakeLemmas.v.  The model is
-   bug-compatible: find_snake's `not_yankable` test is reproduced exactly as
-   written, i.e. WITHOUT any comparison of the cup's types with the cap's
-   (finding F2: a type-mismatched "twisted" snake is selected and the final
-   `layers[:cap] >> layers[cup + 1:]` then raises AxiomError). *)
+   Definitions only; proofs live in Snake/SnakeLemmas.v.  The model follows the
+   code after the repair of finding F2 (commit 0cc87cd): find_snake's
+   `not_yankable` test ends with `or boxes[cup].dom != boxes[cap].cod[::-1]`, so a
+   type-mismatched "twisted" snake is no longer selected (it used to be, and the
+   final `layers[:cap] >> layers[cup + 1:]` then raised AxiomError). *)
 From Coq Require Import List ZArith Bool Lia.
 Import ListNotations.
 Require Import DV.Common.Base DV.Core.Diagram DV.Core.Rewriting DV.Core.Rigid DV.Core.Prog.
@@ -50,6 +50,10 @@ Definition try_leg (d : diagram) (cap : nat) (left_snake : bool) (wire : Z) : op
            negb (is_cup b)
            || (left_snake && negb (off + 1 =? w))
            || (negb left_snake && negb (off =? w))
+           || match nth_error (dboxes d) cap with      (* boxes[cup].dom != boxes[cap].cod[::-1] *)
+              | Some bc => negb (ty_eqb (bdom b) (rev (bcod bc)))
+              | None => true
+              end
        | _, _ => true
        end in
   if not_yankable then None else Some (cup, cap, (lo, ro), left_snake).
